@@ -14,6 +14,7 @@ use crate::tracer::{trace, Kind};
 use crate::wire::{dec, enc};
 use bls12_381::{pairing, G1Affine, G1Projective, G2Affine, G2Projective, Scalar};
 use group::Curve;
+use ff::Field;
 use rand_core::RngCore;
 use serde_json::json;
 use zkabacus_crypto::merchant;
@@ -199,6 +200,69 @@ fn keygen_n<const N: usize>(c: &mut Ctx) {
                 }
             }
         }
+        // samples that are individually ordinary but algebraically related: x = -(sum y_i m_i) for a
+        // message m, so that the signature on m has sigma2 = identity (a legitimate signature)
+        {
+            let mut effective = 0;
+            for k in 0..c.tier.pick(2usize, 6) {
+                let mut m = [Scalar::zero(); N];
+                for (i, x) in m.iter_mut().enumerate() {
+                    *x = if k == 0 { Scalar::from(1 + i as u64) } else { Scalar::random(&mut rng) };
+                }
+                // the secret scalars of the dry run
+                let mut d0 = ScriptRng::new(seed);
+                let kp0 = KeyPair::<N>::new(&mut d0);
+                let Ok(t0) = trace(&kp0) else { continue };
+                let mut acc = Scalar::zero();
+                for i in 0..N {
+                    let Some(y) = t0.fget(&format!("sk/ys/[{}]", i)).ok().and_then(|b| sc(&b)) else { continue };
+                    acc += y * m[i];
+                }
+                let want = Scalar::zero() - acc;
+                let mut pat = want.to_bytes().to_vec();
+                pat.extend_from_slice(&[0u8; 32]);
+                for d in dry.draws_of_len(64) {
+                    let mut r = ScriptRng::new(seed);
+                    r.inject(d, pat.clone());
+                    let Ok(kp) = guard(|| KeyPair::<N>::new(&mut r)) else { continue };
+                    let Ok(t) = trace(&kp) else { continue };
+                    if t.fget("sk/x").ok().and_then(|b| sc(&b)) != Some(want) || (0..N).any(|i| t.fget(&format!("sk/ys/[{}]", i)).ok() != t0.fget(&format!("sk/ys/[{}]", i)).ok()) {
+                        continue;
+                    }
+                    effective += 1;
+                    c.eval();
+                    c.distinct(&format!("{}/related-samples/{}", name, k));
+                    let msg = Message::<N>::new(m);
+                    let sig = msg.sign(&mut rng, &kp);
+                    let pk = match PkAtoms::from_trace(&t, "pk") {
+                        Ok(p) => p,
+                        Err(e) => {
+                            c.inconclusive(&e);
+                            break;
+                        }
+                    };
+                    let degenerate = sig.sigma2().to_compressed() == crate::wire::g1_identity_bytes();
+                    c.count(if degenerate { "related_samples_signature_has_identity_sigma2" } else { "related_samples_signature_ordinary" }, 1);
+                    let defect = if !sig.verify(kp.public_key(), &msg) || !ps_verify_ref(&pk, &sig.sigma1(), &sig.sigma2(), &m) {
+                        Some("signature made with the generated key does not verify")
+                    } else if dec::<zkchannels_crypto::pointcheval_sanders::Signature>(&enc(&sig)).is_err() {
+                        Some("signature made with the generated key fails decode-time validation")
+                    } else {
+                        None
+                    };
+                    match (defect, keypair_defect(&kp, &mut rng)) {
+                        (None, Ok(None)) => c.count("keypairs_well_formed(related samples)", 1),
+                        (Some(df), _) => c.violation(&format!("C19 malformed-output type={} defect={}", name, df), json!({"samples": "x = -(sum y_i m_i)", "message": m.iter().map(|s| hex(&s.to_bytes())).collect::<Vec<_>>(), "defect": df})),
+                        (None, Ok(Some(df))) => c.violation(&format!("C19 malformed-output type={} defect={}", name, df.split(" at ").next().unwrap_or("")), json!({"samples": "x = -(sum y_i m_i)", "defect": df})),
+                        (None, Err(e)) => c.inconclusive(&e),
+                    }
+                    break;
+                }
+            }
+            if effective == 0 {
+                c.inconclusive(&format!("C19: no scalar draw of {} could be aimed at the secret x", name));
+            }
+        }
         // uniformly random streams
         for k in 0..c.tier.pick(4, 60) {
             c.eval();
@@ -358,6 +422,73 @@ fn range_params(c: &mut Ctx) {
     }
 }
 
+/// range key samples related by x = -d*y: the published signature on digit d then has sigma2 = identity,
+/// which is a valid signature; the parameter set must still validate, decode and verify digit by digit
+fn range_params_related(c: &mut Ctx) {
+    let seed = seed_of(&mut c.rng("range/seed"));
+    let mut dry = ScriptRng::new(seed);
+    let _ = RangeConstraintParameters::new(&mut dry);
+    let d64 = dry.draws_of_len(64);
+    if d64.len() < 2 {
+        return c.inconclusive("C19: range parameter generation shows fewer than two scalar draws");
+    }
+    let digits: Vec<u64> = if c.tier == crate::ctx::Tier::Quick { vec![1, 127] } else { vec![1, 2, 63, 64, 100, 127] };
+    for d in digits {
+        let name = format!("RangeConstraintParameters/related-samples/x=-{}y", d);
+        c.case(&name, |c| {
+            let mut rng = c.rng(&name);
+            let y = Scalar::random(&mut rng);
+            let x = Scalar::zero() - Scalar::from(d) * y;
+            let pat = |s: &Scalar| {
+                let mut p = s.to_bytes().to_vec();
+                p.extend_from_slice(&[0u8; 32]);
+                p
+            };
+            let id = crate::wire::g1_identity_bytes();
+            let mut effective = false;
+            // the two secret scalars are among the first scalar draws, in either order
+            'outer: for i in 0..d64.len().min(3) {
+                for j in 0..d64.len().min(3) {
+                    if i == j {
+                        continue;
+                    }
+                    let mut r = ScriptRng::new(seed);
+                    r.inject(d64[i], pat(&x));
+                    r.inject(d64[j], pat(&y));
+                    let rp = match guard(|| RangeConstraintParameters::new(&mut r)) {
+                        Ok(rp) => rp,
+                        Err(p) => {
+                            c.violation(&format!("C19 generator-panicked type=RangeConstraintParameters loc={}", repo_rel(&p.location)), json!({"samples": format!("x = -{}*y", d), "panic": p.message}));
+                            break 'outer;
+                        }
+                    };
+                    let Ok(t) = trace(&rp) else { continue };
+                    let hit = t.fget(&format!("digit_signatures/[{}]/sigma2", d)).map(|b| b == id).unwrap_or(false);
+                    if !hit {
+                        continue;
+                    }
+                    effective = true;
+                    c.eval();
+                    c.distinct(&name);
+                    c.count("range_parameters_with_identity_sigma2_digit", 1);
+                    match range_defect(&rp) {
+                        Ok(None) => c.count("range_parameters_well_formed(related samples)", 1),
+                        Ok(Some(df)) => c.violation(
+                            &format!("C19 malformed-output type=RangeConstraintParameters defect={}", df.trim_end_matches(|ch: char| ch.is_ascii_digit() || ch == ' ')),
+                            json!({"samples": format!("x = -{}*y (both non-zero)", d), "defect": df}),
+                        ),
+                        Err(e) => c.inconclusive(&e),
+                    }
+                    break 'outer;
+                }
+            }
+            if !effective {
+                c.inconclusive("C19: related samples did not reach the range key's secret scalars");
+            }
+        });
+    }
+}
+
 fn merchant_config(c: &mut Ctx) {
     for k in 0..c.tier.pick(4usize, 32) {
         let name = format!("merchant::Config/{}", k);
@@ -425,5 +556,6 @@ pub fn run(c: &mut Ctx) {
         pedersen_n::<13>(c);
     }
     range_params(c);
+    range_params_related(c);
     merchant_config(c);
 }
